@@ -306,7 +306,8 @@ Lemma tail_eq : forall g w d1 sdf1 eps1 sumdf1 epd1, w < 256 -> sdf1 < 429496729
            SdOk (mkSigDef spd2 sdf1 eps1 sumdf1 (sd_anno d1) (sd_utc d1))) with
     | SdOk d' => Ok (0%Z, put g d')
     | SdErr rc => Ok (Z.of_N rc, put g d1)
-    | SdFault _ => Fault Div_zero
+    | SdFault SdDivZero => Fault Div_zero
+    | SdFault SdNonterm => Fault Out_of_fuel
     end.
 Proof.
   intros g w d1 sdf1 eps1 sumdf1 epd1 Hw Hs He. cbv zeta.
@@ -324,6 +325,13 @@ Proof.
   destruct g, d1; reflexivity.
 Qed.
 
+Lemma multiple_lt : forall w, sd_multiple w < 4294967296.
+Proof.
+  intros w. unfold sd_multiple. change (SAMPLE_SIZE_BYTES_MAX * 8) with 256. destruct (w =? 24); [reflexivity|].
+  destruct (N.eq_dec w 0) as [->|H0]; [reflexivity|].
+  assert (256 / w <= 256) by (apply N.div_le_upper_bound; lia). lia.
+Qed.
+
 Theorem gen_align_eq : forall fuel g,
   in_range (d_of g) -> (N.to_nat 4294967296 <= fuel)%nat ->
   jls_core_signal_def_align fuel g = r_align g (sd_align (width g) (d_of g)).
@@ -332,14 +340,95 @@ Proof.
   rewrite gen_defaults_eq.
   pose proof (defaults_in_range_any (width g) (d_of g) HR) as HR1.
   unfold sd_align, r_align.
-  set (w := width g) in *. set (d1 := sd_defaults w (d_of g)) in *.
-  assert (Hw : w < 256) by apply sample_size_lt.
-  cbv zeta. rewrite parse_size_eq.
-  change (sample_size (jls_signal_def_s_data_type (put g d1))) with w.
+  assert (Hw : width g < 256) by apply sample_size_lt.
+  rewrite parse_size_eq.
+  change (sample_size (jls_signal_def_s_data_type (put g (sd_defaults (width g) (d_of g))))) with (width g).
+  set (w := width g) in *. clearbody w.
+  set (d1 := sd_defaults w (d_of g)) in *. clearbody d1.
+  unfold in_range, U32 in HR1. destruct HR1 as (R1 & R2 & R3 & R4 & R5 & R6).
   change (jls_signal_def_s_sample_decimate_factor (put g d1)) with (sdf d1).
   change (jls_signal_def_s_samples_per_data (put g d1)) with (spd d1).
   change (jls_signal_def_s_entries_per_summary (put g d1)) with (eps d1).
   change (jls_signal_def_s_summary_decimate_factor (put g d1)) with (sumdf d1).
-  rewrite !u32_max_eq.
-  Show.
-Admitted.
+  change SAMPLE_DECIMATE_FACTOR_MIN with 10. change SAMPLES_PER_DATA_MIN with 10.
+  change ENTRIES_PER_SUMMARY_MIN with 10. change SUMMARY_DECIMATE_FACTOR_MIN with 10.
+  cbv zeta. rewrite !u32_max_eq.
+  destruct (w =? 0) eqn:E0.
+  - assert (w = 0) as -> by lia. reflexivity.
+  - rewrite (multiple_eq w) by lia. cbn [bind].
+    pose proof (multiple_lt w) as Hm. rewrite (cast_u32_of_N _ Hm).
+    set (m := sd_multiple w) in *. clearbody m.
+    rewrite gen_round_up_eq by lia.
+    destruct (round_up_cases (N.max (sdf d1) 10) m) as [(sdf1 & E1 & B1)|[E1|E1]]; rewrite E1;
+      cbn [r_round bind sd_bind Z.eqb negb]; [| reflexivity | reflexivity].
+    rewrite gen_round_up_eq by lia.
+    destruct (round_up_cases (N.max (eps d1) 10) (N.max (sumdf d1) 10)) as [(eps1 & E2 & B2)|[E2|E2]]; rewrite E2;
+      cbn [r_round bind sd_bind Z.eqb negb]; [| reflexivity | reflexivity].
+    rewrite gen_round_up_eq by lia.
+    destruct (round_up_cases (N.max (spd d1) 10) sdf1) as [(spd1 & E3 & B3)|[E3|E3]]; rewrite E3;
+      cbn [r_round bind sd_bind Z.eqb negb]; [| reflexivity | reflexivity].
+    unfold udiv at 1. destruct (sdf1 =? 0) eqn:E4; [reflexivity|]. cbn [bind].
+    assert (B4 : spd1 / sdf1 < 4294967296) by (apply N.div_lt_upper_bound; nia).
+    rewrite (gen_loop_fuel fuel eps1 (spd1 / sdf1) B2 B4 HF).
+    destruct (fit_loop_cases (N.to_nat (spd1 / sdf1)) eps1 (spd1 / sdf1)) as [(k & EK & _)|(ft & EF)].
+    + rewrite EK. cbn [r_fit bind sd_bind].
+      exact (tail_eq g w d1 sdf1 eps1 (N.max (sumdf d1) 10) k Hw B1 B2).
+    + rewrite EF. destruct ft; reflexivity.
+Qed.
+
+(* ================= the C16 theorems on the generated functions ================= *)
+
+(* a definition accepted by the generated validate has one of the 7 widths *)
+Lemma gen_validate_width : forall g,
+  jls_core_signal_def_validate g = 0%Z -> In (width g) [1; 4; 8; 16; 24; 32; 64].
+Proof.
+  intros g H. rewrite gen_validate_eq in H.
+  apply (validate_ok_width g.(jls_signal_def_s_signal_id) g.(jls_signal_def_s_source_id)
+                           g.(jls_signal_def_s_signal_type) g.(jls_signal_def_s_data_type)). lia.
+Qed.
+
+(* THE PROPERTY on the generated jls_core_signal_def_align: for every width, every 32-bit input and
+   every fuel >= 2^32 the function returns - never a fault, never out of fuel - either
+   JLS_ERROR_PARAMETER_INVALID (5), or 0 with only the six storage parameters changed and the
+   stored parameters consistent, within uint32_t and within the buffer-size limits *)
+Lemma gen_align_total : forall fuel g,
+  In (width g) [1; 4; 8; 16; 24; 32; 64] -> in_range (d_of g) -> (N.to_nat 4294967296 <= fuel)%nat ->
+  (exists g', jls_core_signal_def_align fuel g = Ok (0%Z, g') /\ g' = put g (d_of g') /\
+              Consistent (width g) (d_of g') /\ in_range (d_of g') /\ sizes_ok (width g) (d_of g')) \/
+  (exists g', jls_core_signal_def_align fuel g = Ok (5%Z, g') /\ g' = put g (sd_defaults (width g) (d_of g))).
+Proof.
+  intros fuel g Hw HR HF. rewrite (gen_align_eq fuel g HR HF).
+  destruct (align_total (width g) (d_of g) Hw HR) as [(d' & E & C & R & S)|E]; rewrite E; cbn [r_align].
+  - left. exists (put g d'). rewrite d_of_put. split; [reflexivity|]. split; [reflexivity|]. split; [exact C|]. split; [exact R | exact S].
+  - right. eexists. split; reflexivity.
+Qed.
+
+(* whatever is stored is stored again unchanged *)
+Lemma gen_align_idem : forall fuel g g',
+  In (width g) [1; 4; 8; 16; 24; 32; 64] -> in_range (d_of g) -> (N.to_nat 4294967296 <= fuel)%nat ->
+  jls_core_signal_def_align fuel g = Ok (0%Z, g') ->
+  jls_core_signal_def_align fuel g' = Ok (0%Z, g').
+Proof.
+  intros fuel g g' Hw HR HF H. rewrite (gen_align_eq fuel g HR HF) in H.
+  destruct (align_total (width g) (d_of g) Hw HR) as [(d' & E & C & R & S)|E]; rewrite E in H; cbn [r_align] in H;
+    [|discriminate].
+  injection H as <-.
+  assert (HR' : in_range (d_of (put g d'))) by (rewrite d_of_put; exact R).
+  rewrite (gen_align_eq fuel (put g d') HR' HF). rewrite d_of_put, width_put.
+  rewrite (align_idem (width g) (d_of g) d' Hw E). cbn [r_align]. reflexivity.
+Qed.
+
+(* hypotheses satisfiable, and the generated function computes *)
+Lemma gen_sd_ex :
+  let g0 := mk_jls_signal_def_s 1 1 0 0 JLS_DATATYPE_F32 1000 0 0 0 0 0 0 0 Null Null in
+  let g1 := mk_jls_signal_def_s 2 1 0 0 JLS_DATATYPE_I24 1000 100 11 100 10 5 5 0 Null Null in
+  jls_core_signal_def_validate g0 = 0%Z /\ In (width g0) [1; 4; 8; 16; 24; 32; 64] /\
+  in_range (d_of g0) /\
+  (N.to_nat 4294967296 <= N.to_nat 4294967296)%nat /\
+  jls_core_signal_def_align 100 g0 = Ok (0%Z, put g0 (mkSigDef 8192 128 640 20 100 100)) /\
+  jls_core_signal_def_align 100 g1 = Ok (0%Z, put g1 (mkSigDef 128 32 100 10 10 10)).
+Proof.
+  cbv zeta. split; [vm_compute; reflexivity|]. split; [vm_compute; auto 10|].
+  split; [unfold in_range, U32; cbn; lia|]. split; [apply le_n|].
+  split; vm_compute; reflexivity.
+Qed.
